@@ -107,6 +107,7 @@ int main()
         if (win == "lower") g.set_decay_dbd_esum_range(0.0, std::nan(""));   // half-open windows: one bound left undefined
         if (win == "upper") g.set_decay_dbd_esum_range(std::nan(""), 5.0);
         if (win == "inverted") g.set_decay_dbd_esum_range(2.0, 1.0);
+        if (win == "empty") g.set_decay_dbd_esum_range(0.001, 0.001);
         if (win == "beyond") g.set_decay_dbd_esum_range(5.0, 6.0); // above every tabulated Q value
         g.initialize(prng);
       } catch (std::exception & e) {
